@@ -120,7 +120,7 @@ def gen_case(seed, i, mode):
         'callers': callers, 'main_prepare': r.random() < 0.3, 'gran': gran, 'sched': sched,
         'launch_delays': delays, 'session2': session2, 'analyse': r.random() < 0.25,
         'vanish_at': r.choice(('idle', 'after_send', 'in_request', 'after_reply')),
-        'faults': {}, 'closer': closer,
+        'faults': {}, 'closer': closer, 'exit_in_prestart': r.random() < 0.06,
         'connect_delays': [r.choice((0, 0, 0, 0, 3, 6, 12))],
     }
     if mode == 'launchfail':
@@ -131,6 +131,7 @@ def gen_case(seed, i, mode):
         else:
             f['never_listen'] = [0]
         case['faults'] = f
+        case['exit_in_prestart'] = False
         case['session2'] = 'none'
     return case
 
@@ -360,10 +361,45 @@ class Run(object):
     def live_procs(self):
         return [p for p in self.world.procs if p.returncode is None]
 
+    def exit_during_prestart(self):
+        """The client process ends while a pre-start may still be in flight: its main thread returns right after
+        prepare(); the interpreter waits for non-daemon threads, abandons daemon threads, and every connection of
+        the process disappears.  Whatever server was launched has to end on its own."""
+        case = self.case
+        k = self.kernel
+        w = self.world
+        self.env = env = remote.Environment(executable='python-sim')
+
+        def client_main():
+            for op in case['callers'][0][:2]:
+                if op[0] in ('prepare', 'think'):
+                    self.do_op('client-main', op)
+            self.do_op('client-main', ['prepare'])
+        t = k.spawn(client_main, 'client-main', group='clientx', traced=True)
+        k.block(lambda: t.finished, 60.0, ('harness', 'wait-client-main'))
+        mine = lambda: [x for x in k.threads if x.group == 'clientx' and not x.finished and not x.dead]
+        k.block(lambda: not [x for x in mine() if not x.daemon], 60.0, ('harness', 'wait-non-daemon-threads'))
+        if [x for x in mine() if not x.daemon]:
+            self.vio('C16/liveness/client-exit-hangs', 'a non-daemon client thread is still running 60 simulated seconds after main returned')
+        abandoned = len(mine())
+        k.kill_group('clientx')
+        for c in w.client_conns:
+            c.is_closed = True
+        w.count('client_exit_during_prestart')
+        if abandoned:
+            w.probe('daemon_threads_abandoned_at_exit', abandoned)
+        gone = k.block(lambda: not self.live_procs(), 8.0, ('harness', 'wait-exit-after-client-exit'))
+        if not gone:
+            self.vio('C16/exit/server-still-running',
+                     'the client process has exited (prepare() was the last thing it did) but a server it launched is still '
+                     'running 8 simulated seconds later')
+
     def main(self):
         case = self.case
         k = self.kernel
         w = self.world
+        if case.get('exit_in_prestart'):
+            return self.exit_during_prestart()
         self.env = env = remote.Environment(executable='python-sim')
         callers = []
         if case.get('main_prepare'):
@@ -591,7 +627,7 @@ def run_case(case, keep_events=0, record_choices=False):
         if w.counts.get(name):
             faults[name] = w.counts[name]
     for name, n in w.counts.items():
-        if name.startswith('client_vanished_'):
+        if name.startswith('client_vanished_') or name == 'client_exit_during_prestart':
             faults[name] = n
     if any(d > 0 for d in case['launch_delays'][:len(w.procs)]):
         faults['slow_child_startup'] = 1
